@@ -380,6 +380,19 @@ TRUSTED_BASE = [
 ]
 
 
+def keep_property(results, prop):
+    """shared jobs carry obligations of several properties: keep this property's labels (and the unlabelled
+       language-safety obligations); the others are reported by their own property's check"""
+    for r in results:
+        def mine(p, d):
+            lab = label_of(r.job, p, d)
+            return lab.startswith(prop + '/') or not re.match(r'^C\d\d/', lab)
+        r.props = [(p, d, s) for (p, d, s) in r.props if mine(p, d)]
+        r.failed = [(p, d) for (p, d) in r.failed if mine(p, d)]
+        if r.status == 'failed' and not r.failed: r.status = 'ok'
+    return results
+
+
 def generic_label(prop, job, cbmc_id):
     m = re.match(r'^(.*?)\.(\d+)$', cbmc_id)
     base = m.group(1) if m else cbmc_id
